@@ -194,6 +194,10 @@ structure State where
   actual : Std.HashMap String Expr := {}
   nOpsA : Nat := 0
   nMisA : Nat := 0
+  /-- semantics corpus: expression, type of `a`, type of `b` (`Sum.inl` native / `Sum.inr` arbitrary-int width) -/
+  sem : Std.HashMap String (Expr × ITy × (ITy ⊕ Nat)) := {}
+  nSem : Nat := 0
+  nMisSem : Nat := 0
   deriving Inhabited
 
 def State.find (st : State) (name : String) : Option (Nat × TypeEntry) :=
